@@ -1,6 +1,7 @@
 From Coq Require Import String Ascii NArith List Bool.
 From Coq Require Import ExtrOcamlBasic ExtrOcamlString.
-From Tiff Require Import TiffEnc SideBySide TiffDec.
+From Tiff Require Import TiffEnc SideBySide TiffDec TiffSw.
 Extraction Language OCaml.
 Extraction "tiffmodel.ml" mkFixes all_fixes dev_init step run destroy decode regions fs_get fs_put
+  os_init step_sw run_sw destroy_sw budget_ok all_positive
   N.of_nat N.to_nat N.div_eucl N.add N.mul N.eqb.
